@@ -39,9 +39,13 @@ Definition seg_inv (g : segment) : Prop :=
   s_prompt g = [] /\
   forall m, s_menu g = Some m -> menu_bounded m /\ (m <> [] -> (s_sel g < menu_count m)%N) /\ MP m.
 Definition segs_inv (l : list segment) : Prop := Forall seg_inv l.
-Definition cinv (c : context) : Prop :=
+(** [cpre]: what Compose needs; [cinv]: what holds after every operation
+    (the composition's own input is then no longer than the raw input) *)
+Definition cpre (c : context) : Prop :=
   cx_caret c <= length (cx_input c) /\ segs_inv (sg_segs (cx_comp c)) /\
   IP (cx_input c) /\ IP (sg_input (cx_comp c)).
+Definition cinv (c : context) : Prop :=
+  cpre c /\ length (sg_input (cx_comp c)) <= length (cx_input c).
 Definition sinv (s : state) : Prop := cinv (st_ctx s).
 
 (** ---- segments ---- *)
@@ -288,11 +292,16 @@ Lemma cinv_opts c o : cinv c -> cinv (ctx_with_opts c o).
 Proof. intros H; exact H. Qed.
 Lemma cinv_comp c sg :
   cinv c -> segs_inv (sg_segs sg) -> sg_input sg = sg_input (cx_comp c) -> cinv (ctx_with_comp c sg).
-Proof. intros (H1 & _ & H3 & H4) H2 E. repeat split; auto. cbn. rewrite E. exact H4. Qed.
+Proof.
+  intros ((H1 & _ & H3 & H4) & H5) H2 E. split; [repeat split; auto; cbn; rewrite E; exact H4|].
+  cbn. rewrite E. exact H5.
+Qed.
 Lemma cinv_segs c : cinv c -> segs_inv (sg_segs (cx_comp c)).
 Proof. intros H; apply H. Qed.
+Lemma cinv_cpre c : cinv c -> cpre c.
+Proof. intros H; apply H. Qed.
 
-Lemma compose_inv c : cinv c -> cinv (compose cfg translate c).
+Lemma compose_inv c : cpre c -> cinv (compose cfg translate c).
 Proof.
   intros (Hc & Hs & Hi & Hci). unfold compose.
   set (sg0 := reset_input (cx_comp c) (firstn (cx_caret c) (cx_input c))).
@@ -311,16 +320,17 @@ Proof.
   assert (Hi2 : IP (sg_input sg2)) by (rewrite Ci; exact Hi1).
   pose proof (translate_segs_inv sg2 Hi2 H2) as H3.
   destruct (translate_segs translate sg2) as [sg3 oks] eqn:Et. cbn [fst] in H3.
-  apply cinv_check, cinv_check. split; [exact Hc|]. split; [exact H3|]. split; [exact Hi|].
-  cbn [ctx_with_comp cx_comp].
   assert (E3 : sg_input sg3 = sg_input sg2).
   { pose proof (translate_segs_input sg2) as T. rewrite Et in T. exact T. }
-  rewrite E3. exact Hi2.
+  apply cinv_check, cinv_check. split; [split; [exact Hc|]; split; [exact H3|]; split; [exact Hi|]|];
+    cbn [ctx_with_comp cx_comp cx_input]; rewrite E3; [exact Hi2|].
+  rewrite Ci. subst sg1. destruct ((cx_caret c <? length (cx_input c)) && (cx_caret c =? confirmed_pos sg0));
+    [rewrite reset_input_input; lia | subst sg0; rewrite reset_input_input, firstn_length; lia].
 Qed.
 
 Lemma compose_with_input_inv c i k :
   cinv c -> k <= length i -> IP i -> cinv (compose cfg translate (ctx_with_input c i k)).
-Proof. intros (_ & Hs & _ & Hci) Hk Hi. apply compose_inv. repeat split; assumption. Qed.
+Proof. intros ((_ & Hs & _ & Hci) & _) Hk Hi. apply compose_inv. repeat split; assumption. Qed.
 
 Lemma cinv_ip c : cinv c -> IP (cx_input c).
 Proof. intros H; apply H. Qed.
@@ -338,7 +348,7 @@ Lemma pop_input_inv c n : cinv c -> cinv (fst (pop_input cfg translate c n)).
 Proof.
   intros H. unfold pop_input. destruct (cx_caret c <? n) eqn:E; [exact H|]. apply Nat.ltb_ge in E.
   cbn [fst]. pose proof (cinv_ip c H) as Hi. apply compose_with_input_inv; [exact H| |].
-  - destruct H as (Hc & _). rewrite app_length, firstn_length, skipn_length. lia.
+  - destruct H as ((Hc & _) & _). rewrite app_length, firstn_length, skipn_length. lia.
   - apply IP_app; [apply IP_firstn | apply IP_skipn]; exact Hi.
 Qed.
 
@@ -365,7 +375,7 @@ Lemma set_input_inv c v : cinv c -> IP v -> cinv (set_input cfg translate c v).
 Proof. intros H Hv. unfold set_input. apply compose_with_input_inv; [exact H | lia | exact Hv]. Qed.
 
 Lemma back_inv c g r : cinv c -> sg_segs (cx_comp c) = g :: r -> seg_inv g.
-Proof. intros (_ & H & _) E. rewrite E in H. inversion H; assumption. Qed.
+Proof. intros ((_ & H & _) & _) E. rewrite E in H. inversion H; assumption. Qed.
 
 Lemma cinv_set_back c g : cinv c -> seg_inv g -> cinv (ctx_with_comp c (sg_set_back (cx_comp c) g)).
 Proof.
@@ -377,7 +387,7 @@ Proof.
   intros H. unfold reopen_previous_segment.
   pose proof (trim_inv (cx_comp c) (cinv_segs c H)) as Ht. pose proof (trim_input (cx_comp c)) as Ei.
   destruct (trim (cx_comp c)) as [sg trimmed]. cbn [fst] in Ht, Ei. destruct trimmed; [|exact H]. cbn [fst].
-  apply compose_inv. apply cinv_comp; [exact H| |].
+  apply compose_inv, cinv_cpre. apply cinv_comp; [exact H| |].
   - destruct (sg_segs sg) as [|g r] eqn:E; [rewrite E; exact Ht|].
     destruct (status_geb (s_status g) SSelected); [|rewrite E; exact Ht].
     apply set_back_inv; [rewrite E; exact Ht|]. apply seg_inv_reopen. inversion Ht; assumption.
@@ -404,7 +414,7 @@ Lemma reopen_previous_selection_inv c : cinv c -> cinv (fst (reopen_previous_sel
 Proof.
   intros H. unfold reopen_previous_selection.
   destruct (reopen_sel_rev (sg_segs (cx_comp c)) (cx_caret c)) as [l|] eqn:E; [|exact H]. cbn [fst].
-  apply compose_inv, cinv_comp; [exact H| |reflexivity]. apply (reopen_sel_rev_inv _ _ _ (cinv_segs c H) E).
+  apply compose_inv, cinv_cpre, cinv_comp; [exact H| |reflexivity]. apply (reopen_sel_rev_inv _ _ _ (cinv_segs c H) E).
 Qed.
 
 Lemma drop_unselected_inv l : segs_inv l -> segs_inv (fst (drop_unselected l)).
@@ -426,7 +436,7 @@ Lemma refresh_non_confirmed_inv c : cinv c -> cinv (fst (refresh_non_confirmed c
 Proof.
   intros H. unfold refresh_non_confirmed. pose proof (clear_non_confirmed_inv c H) as H1.
   destruct (clear_non_confirmed c) as [c1 reverted]. cbn [fst] in H1.
-  destruct reverted; [|exact H]. apply compose_inv; exact H1.
+  destruct reverted; [|exact H]. apply compose_inv, cinv_cpre; exact H1.
 Qed.
 
 Lemma begin_editing_rev_inv l : segs_inv l -> segs_inv (begin_editing_rev l).
@@ -446,7 +456,7 @@ Proof.
   set (count := if (requested =? 0)%N then menu_count m else menu_prepare m requested).
   set (new_index := if (0 <? count)%N then N.min (count - 1) i else 0%N).
   destruct (s_sel g =? new_index)%N; [exact H|]. cbn [fst].
-  apply compose_inv, cinv_set_back; [exact H|].
+  apply compose_inv, cinv_cpre, cinv_set_back; [exact H|].
   apply seg_inv_sel_at; [apply (back_inv c g r H E)|].
   intros m' Hm' Hne. rewrite Em in Hm'. injection Hm' as <-.
   assert (Hpos : (0 < menu_count m)%N) by (unfold menu_count; destruct m; [congruence | cbn; lia]).
@@ -495,7 +505,7 @@ Proof.
     { apply cinv_comp; [exact H| |rewrite forward_input; apply set_back_input].
       apply forward_inv, set_back_inv; [apply H | exact Hg]. }
     destruct (cx_caret (st_ctx s) <=? s_end (seg_close g0)); apply sinv_with;
-      [apply set_caret_pos_inv | apply compose_inv]; exact H1.
+      [apply set_caret_pos_inv | apply compose_inv, cinv_cpre]; exact H1.
 Qed.
 
 Lemma select_inv s i : sinv s -> sinv (fst (select cfg translate s i)).
@@ -898,7 +908,7 @@ Proof.
 Qed.
 
 Lemma init_inv : sinv (init_state cfg).
-Proof. repeat split; cbn; [lia | constructor | exact IP_nil | exact IP_nil]. Qed.
+Proof. repeat split; cbn; [lia | constructor | exact IP_nil | exact IP_nil | lia]. Qed.
 
 (** ---- everything [view_of] reports is well-formed ---- *)
 Ltac Zify.zify_post_hook ::= Z.div_mod_to_equations.
@@ -987,6 +997,17 @@ Qed.
 Theorem wf_reported_gen ops : Forall op_ok ops -> forallb wf_obsb (snd (run cfg translate ops)) = true.
 Proof. apply run_from_wf, init_inv. Qed.
 
+Lemma run_from_inv ops : forall s, sinv s -> Forall op_ok ops -> sinv (fst (run_from cfg translate s ops)).
+Proof.
+  induction ops as [|o r IH]; intros s H Hops; [exact H|]. cbn [run_from].
+  inversion Hops as [|? ? Ho Hr]; subst. pose proof (step_inv s o H Ho) as Hi.
+  destruct (step cfg translate s o) as [s1 ob]. cbn [fst] in Hi. specialize (IH s1 Hi Hr).
+  destruct (run_from cfg translate s1 r) as [s2 obs]. exact IH.
+Qed.
+
+Theorem reachable_inv ops : Forall op_ok ops -> sinv (fst (run cfg translate ops)).
+Proof. apply run_from_inv, init_inv. Qed.
+
 
 (** ---- the UTF-8 clause: with [IP] = ASCII and [MP] = clean candidates the
     reported preedit positions are character boundaries ---- *)
@@ -1004,7 +1025,7 @@ Qed.
 
 Lemma view_utf8 s : sinv s -> wf_view_utf8b (fst (view_of cfg s)) = true.
 Proof.
-  intros (Hc & Hs & Hi & Hci). unfold view_of.
+  intros ((Hc & Hs & Hi & Hci) & _). unfold view_of.
   destruct (ctx_commit_text (st_ctx s)) as [pv ok2]. destruct (menu_view cfg (st_ctx s)) as [mv ok3]. cbn [fst].
   unfold wf_view_utf8b. cbn [v_preedit]. destruct (is_composing (st_ctx s)); [|reflexivity].
   unfold ctx_preedit. apply comp_preedit_utf8.
@@ -1055,6 +1076,20 @@ Proof.
   intros Hps Hlen Hdel ops.
   eapply wf_reported_gen with (MP := fun _ => True) (IP := fun _ => True); eauto.
   apply Forall_forall. intros o _. destruct o; exact I.
+Qed.
+
+(** in every reachable state the composition's own input is no longer than the raw input *)
+Theorem reachable_comp_input_le (cfg : config) (translate : bytes -> seginfo -> list cand) :
+  (1 <= cf_page_size cfg)%Z ->
+  (forall i s, (Z.of_nat (length (translate i s)) + cf_page_size cfg < 2147483648)%Z) ->
+  cf_del_checked cfg = true ->
+  forall ops, let c := st_ctx (fst (run cfg translate ops)) in
+              length (sg_input (cx_comp c)) <= length (cx_input c) /\ cx_caret c <= length (cx_input c).
+Proof.
+  intros Hps Hlen Hdel ops.
+  assert (H : sinv cfg (fun _ => True) (fun _ => True) (fst (run cfg translate ops))).
+  { eapply reachable_inv; eauto. apply Forall_forall. intros o _. destruct o; exact I. }
+  cbv zeta. destruct H as ((Hc & _) & Hr). split; assumption.
 Qed.
 
 Definition op_ascii (o : op) : Prop := match o with OpSetInput v => all_ascii v | _ => True end.
